@@ -37,7 +37,7 @@ pub open spec fn carried<R1, T1, N1, S1, X1, R2, T2, N2, S2, X2>(a: Builder<R1, 
 impl<Role, T, NameState, SS, TS> Builder<Role, T, NameState, SS, TS> {
 //@@ fn file=fe2o3-amqp/src/link/builder.rs impl=`impl<Role, T, NameState, SS, TS> Builder<Role, T, NameState, SS, TS>` name=name
 //@@ param name : String
-//@@ subst `name.into()` => `name` rule=R7
+//@@ subst `name.into()` => `name` rule=optional-R7
 //@@ spec
     ensures
         carried(self, r),       // [C02.builder.typestate-keeps-what-was-configured] [C08.builder.typestate-keeps-what-was-configured] [C01.builder.typestate-keeps-what-was-configured] naming the link keeps every setting made before: the settle modes, the initial delivery-count, max-message-size, the credit mode, auto-accept -- a builder is used in any order
@@ -60,7 +60,7 @@ impl<Role, T, NameState, SS, TS> Builder<Role, T, NameState, SS, TS> {
 
 //@@ fn file=fe2o3-amqp/src/link/builder.rs impl=`impl<Role, T, NameState, SS, TS> Builder<Role, T, NameState, SS, TS>` name=source
 //@@ param source : Source
-//@@ subst `source.into()` => `source` rule=R7
+//@@ subst `source.into()` => `source` rule=optional-R7
 //@@ spec
     ensures
         carried(self, r),       // [C02.builder.typestate-keeps-what-was-configured] [C08.builder.typestate-keeps-what-was-configured] [C01.builder.typestate-keeps-what-was-configured]
@@ -69,7 +69,7 @@ impl<Role, T, NameState, SS, TS> Builder<Role, T, NameState, SS, TS> {
 
 //@@ fn file=fe2o3-amqp/src/link/builder.rs impl=`impl<Role, T, NameState, SS, TS> Builder<Role, T, NameState, SS, TS>` name=target
 //@@ param target : Target
-//@@ subst `target.into()` => `target` rule=R7
+//@@ subst `target.into()` => `target` rule=optional-R7
 //@@ spec
     ensures
         carried(self, r),       // [C02.builder.typestate-keeps-what-was-configured] [C08.builder.typestate-keeps-what-was-configured] [C01.builder.typestate-keeps-what-was-configured]
